@@ -387,6 +387,12 @@ pub fn run(args: &Args) -> i32 {
     fw.0 += h.0 + h.1;
     fw.1 += h.0 + h.1;
     tl = tl.merge(sweep_wide_offsets(&ctx, thorough));
+    // leap tables by length x sign pattern x last record near i64::MAX (forward lookups through the table engine's oracle)
+    if !args.digest_mode {
+        let lt = crate::table::sweep_leap_long_tables(&cyc, &rec, thorough);
+        fw.0 += lt.evals;
+        fw.1 += lt.nontrivial;
+    }
     // table x trailing DST rule x leap record at the rule transition (searches; the forward side is C03/C04 territory)
     let rtabs = crate::rulealpha::Tables::build(&cyc);
     // both ends of the supported range in zones with leap seconds (range checks must be made on the UTC value)
